@@ -19,7 +19,9 @@ RULE = ('class grid N(1..16) x T_ref placement(6) x range class(2) x supply '
         'order(3) enumerated exhaustively, random values per class, on '
         'ThermochemRawData and ThermochemIncomplete; plus every group of the '
         '9 shipped libraries. Non-trivial = a correlation whose relations '
-        '(i)-(vi) were all evaluated at >=5 temperatures; distinct by data.')
+        '(i)-(vi) were all evaluated at >=5 temperatures; distinct by data.'
+        ' Argument forms: scalar float T; the array form of get_CpoR on '
+        'every surface. ')
 ASSUMPTIONS = [
     'positive temperatures, distinct tabulated temperatures',
     'numpy/scipy InterpolatedUnivariateSpline is a black-box interpolant '
